@@ -855,7 +855,7 @@ class Class(Node):
 
     def __deepcopy__(self, memo):
         # Avoid copying the entire tree
-        if self.parent is not None and self.parent not in memo:
+        if self.parent is not None and id(self.parent) not in memo:
             memo[id(self.parent)] = self.parent
 
         _deepcp = self.__deepcopy__
